@@ -28,13 +28,14 @@ SOL = "pygradflow.step.solver."
 def _hess_logger(u, problem, calls):
     def lag_hess(it, self_, x, lag):
         calls.append((x, lag))
-        return Mat(problem.fields["__n__"], problem.fields["__n__"], None, name=it.path.fresh_name("H"))
+        # the evaluator hands out the user's own matrix object (astype is the identity in double precision)
+        return Mat(problem.fields["__n__"], problem.fields["__n__"], None, name=it.path.fresh_name("H"), region="USER", fmt=it.path.ghost.get("__user_fmt__", "coo"))
 
     u.it.abstract["pygradflow.eval.Evaluator.lag_hess"] = lag_hess
 
 
 def update_derivs_unit(name, qual, standard, owner=None):
-    @unit(f"C14.update_derivs.{name}", ["C14"], [(owner or qual) + ".update_derivs", "pygradflow.iterate.Iterate.aug_lag_deriv_xx", "pygradflow.iterate.Iterate.aug_lag_deriv_xy"], config={"max_paths": 50})
+    @unit(f"C14.update_derivs.{name}", ["C14", "C11"], [(owner or qual) + ".update_derivs", "pygradflow.iterate.Iterate.aug_lag_deriv_xx", "pygradflow.iterate.Iterate.aug_lag_deriv_xy"], config={"max_paths": 50})
     def ud(u):
         params = mk_params(u)
         problem = mk_problem(u)
@@ -50,7 +51,16 @@ def update_derivs_unit(name, qual, standard, owner=None):
         ss = u.construct(qual, problem, params, orig, dt, rho)
         calls = []
         _hess_logger(u, problem, calls)
+        # C11: the Jacobian / Hessian objects belong to the caller (cached callbacks return them again and again)
+        from .c04_transform import StoreLog
+
+        fmt = ["coo", "csr", "csc"][u.path.choose_n(3, "format of the user's matrices")]
+        u.path.ghost["__user_fmt__"] = fmt
+        cur.fields["cons_jac"].region = "USER"
+        cur.fields["cons_jac"].fmt = fmt
+        slog = StoreLog(u)
         u.method(ss, "update_derivs", cur)
+        slog.check()
         n, m = problem.fields["__n__"], problem.fields["num_cons"]
         J = cur.fields["cons_jac"]
         jac = ss.fields["_jac"]
@@ -167,7 +177,7 @@ for _v in ("Simplified", "Full", "ActiveSet"):
     newton_variant_unit(_v)
 
 
-@unit("C14.Extended.assembly", ["C14"], [SOL + "extended_step_solver.ExtendedStepSolver._compute_deriv", SOL + "extended_step_solver.ExtendedStepSolver.extract_rows"], config={"max_paths": 20})
+@unit("C14.Extended.assembly", ["C14", "C11"], [SOL + "extended_step_solver.ExtendedStepSolver._compute_deriv", SOL + "extended_step_solver.ExtendedStepSolver.extract_rows"], config={"max_paths": 20})
 def extended_assembly(u):
     """The system assembled by the extended step solver is, entry by entry, the system of the abstract solve_scaled
     contract: rows for the active components are unit rows, rows for the inactive components are the rows of
@@ -185,7 +195,13 @@ def extended_assembly(u):
     ss.fields["_active_set"] = act
     J, H = Mat(m, n, None, name="J"), Mat(n, n, None, name="H0")
     ss.fields["_jac"], ss.fields["_hess"] = J, H
+    from .c04_transform import StoreLog
+
+    for M_ in (J, H):
+        M_.region, M_.container_region = "USER", "FRESH"  # shallow copies of the caller's matrices (C11)
+    slog = StoreLog(u)
     u.method(ss, "_compute_deriv")
+    slog.check()
     D = ss.fields["_deriv"]
     e = matmodel.entry_fn(u.it, D)
     eJ, eH = matmodel.entry_fn(u.it, J), matmodel.entry_fn(u.it, H)
@@ -265,18 +281,19 @@ def symmetric_assembly(u):
     # the same function; only the first pair is used for the index maps below)
     D = sol_holder["D"]
     e = matmodel.entry_fn(u.it, D)
-    hr = ss.fields["hess_rows"]
-    inact = hr.gather[2] if getattr(hr, "gather", None) else None
-    u.ensure(inact is not None and hr.gather[0] == "rows", "hess_rows_are_the_inactive_rows_of_H0+lamb*I")
+    # the increasing enumeration of the inactive components (np.where(~active_set)): rows and columns of the reduced
+    # system are numbered by it - independently of how the code extracts / assembles the blocks
+    cache = list(u.path.ghost.get("__where_cache__", {}).values())
+    encI = next((v for (v, m_) in cache if getattr(m_, "neg_of", None) is not None), None)
+    u.ensure(encI is not None, "enumeration_of_the_inactive_components_computed")
+    if encI is None:
+        return
+    inact = ci = encI
     ni = inact.n
     i, j = u.int("i"), u.int("j")
     u.assume(z3.And(i >= 0, j >= 0, i < ni + m, j < ni + m))
     u.path.index_term(i, ni)
     u.path.index_term(j, ni)
-    # the column gathers of _compute_deriv use their own (identical) enumeration of the inactive set
-    blocks = D.blocks
-    ih = blocks[0][0]
-    ci = ih.gather[2]
     ri, cj = inact.f(i), ci.f(j)
     u.ensure(z3.Implies(z3.And(i < ni, j < ni), z3.And(z3.Not(av.f(ri)), z3.Not(av.f(cj)), e(i, j) == eH(ri, cj) + lam * kron(ri, cj))), "block11==(H0+lamb*I)[inactive,inactive]")
     u.ensure(z3.Implies(z3.And(i < ni, j >= ni), e(i, j) == eJ(j - ni, ci.f(i))), "block12==J[:,inactive]^T")
